@@ -1,10 +1,17 @@
 #!/bin/sh
-# regress_seeded.sh [seconds]: every kept seeded change against the check that is recorded
-# as catching it (VERIF_PATCH: /repo is not modified). Prints one line per change.
-secs=${1:-120}
+# regress_seeded.sh [seconds] [id-prefix...]: every kept seeded change (or those whose
+# directory name starts with one of the prefixes) against the check that is recorded as
+# catching it (VERIF_PATCH: /repo is not modified; no minimisation). One line per change.
+secs=${1:-100}
+[ $# -gt 0 ] && shift
 cd /verif
 for d in seeded/*/; do
   id=$(basename $d)
+  if [ $# -gt 0 ]; then
+    match=0
+    for pfx in "$@"; do case $id in $pfx*) match=1;; esac; done
+    [ $match = 1 ] || continue
+  fi
   prop=$(python3 -c "
 import json,sys
 m=json.load(open('$d/meta.json'))
@@ -12,7 +19,7 @@ if not m.get('detected_by'): print('SKIP'); sys.exit()
 print(m.get('regress_with', m['breaks']))")
   if [ "$prop" = SKIP ]; then echo "$id: recorded as not detectable - skipped"; continue; fi
   start=$(date +%s)
-  VERIF_PATCH=/verif/$d/patch.diff ./check $prop quick -seconds $secs > /tmp/regress_$id.log 2>&1
+  VERIF_PATCH=/verif/$d/patch.diff ./check $prop quick -seconds $secs -nomin > /tmp/regress_$id.log 2>&1
   code=$?
   echo "$id $prop exit=$code $(( $(date +%s) - start ))s $(grep -a -m1 '^VIOLATION\|^OK\|machinery' /tmp/regress_$id.log | cut -c1-140)"
 done
